@@ -5,7 +5,10 @@ PROPS["C04"] = prop(
     "against an explicit reference model of history and deletion written from the statement and fed only by acknowledged (2xx) requests: "
     "messages (seq, author, content, ts), per-user soft-deleted sets per subscription incarnation, hard-deleted set, delete-transaction counter, log of delete transactions. "
     "Every {get data} answer, {get del} answer and {del msg} outcome is compared with the model; after every step the store snapshot "
-    "(messages: deleted marks, erased content; deletion-log rows per user; topic delete counter) is compared with the model; every {data} frame is checked for cross-topic mixing; thorough tier: the same generators and oracles also run under Go's native coverage-guided fuzzer (rapid.MakeFuzz, 60 s per target, all cores)",
+    "(messages: deleted marks, erased content; deletion-log rows per user; topic delete counter) is compared with the model; every {data} frame is checked for cross-topic mixing; thorough tier: the same generators and oracles also run under Go's native coverage-guided fuzzer (rapid.MakeFuzz, 60 s per target, all cores); "
+    "(3) generated MessageDeleteList (hard/soft) / MessageGetAll / MessageGetDeleted calls on the real MySQL and PostgreSQL adapters against the fake wire servers of C18 (no DBMS): "
+    "the statements the adapters emit are judged by evaluating their seqid (delid) predicates (BETWEEN / IN / = >= > < <=, integer literals) and the (low, hi) rows written to dellog "
+    "against the covered-id set of the request",
     "pure unit (TestC04Normalize): rapid lists of 0-7 ranges (singles as hi=0 and hi=low+1, overlapping, nested, adjacent), non-trivial = >=3 ranges with an overlap and an adjacency; "
     "world unit (TestC04History): 3-6 sessions of 4 users (owner, member/P2P peer, members or channel readers), one group topic (35% channel) + one P2P topic (70%), 3-9 messages "
     "(3%: 101-104, beyond the store's maximum of 100 per query) + 6-24 drawn ops: {del msg} soft/hard with 1-6 entries (unsorted, duplicated, touching, overlapping, nested, one apart, "
@@ -15,18 +18,26 @@ PROPS["C04"] = prop(
     "channel readers address the topic as chnXXX (5% of their gets as grpXXX). "
     "non-trivial = >=1 accepted delete listing >=2 entries that overlap or touch, >=1 accepted hard and >=1 accepted soft delete (degraded ones count as soft), and afterwards >=1 {get data} "
     "by an attached reader judged exactly; distinct = FNV-64 of the case; see the class histogram for the share of cases with limit-cut answers, channel readers, non-readers, "
-    "queries by a non-deleter, unsub/evict/reload/restart, out-of-domain deletes accepted",
-    "Generated range lists and generated publish/delete/query histories are compared with reference models written from the statement; sampled, not exhaustive.",
+    "queries by a non-deleter, unsub/evict/reload/restart, out-of-domain deletes accepted; "
+    "SQL units (TestC04SqlMySQL, TestC04SqlPG): one adapter call per case: hard or soft delete of 1-4 ranges over ids 1..12 (sorted + normalised as the server does, hi=0 = single id, delete id 1..40), "
+    "or history / deletion-log query with since, before, limit from {0 (absent), 1, 2, 3, 5, 11, 12, 13, 100, 1000}; non-trivial = delete of >=2 ranges or of one multi-id range, query with both since and before, "
+    "every seqid/delid predicate understood by the evaluator (class predicate-not-understood otherwise: not judged)",
+    "Generated range lists and generated publish/delete/query histories are compared with reference models written from the statement; sampled, not exhaustive. The SQL adapters' statements are judged by evaluating their seqid predicates against the covered-id set (no DBMS is run).",
     "Trusts the reference models in harness/types/c04_test.go and harness/world/c04_test.go; store contract = verifmem (written from the MySQL adapter's SQL: newest-first, limit min(opt,100), "
     "unsubscribing drops the user's deletion log). Permissions are read from the store rows before the step and judged only where the loaded topic's cache agrees "
     "(permObs.agreed; a delete accepted under disagreement stops the judging of that topic). Root/obo requests are not generated.",
     "5/C04", "types-pure+world",
     [Unit("TestC04Normalize", "server/store/types", quick=50000, thorough=1000000, shards_quick=4, shards_thorough=16, fuzz="FuzzC04Normalize", fuzztime=60),
-     Unit("TestC04History", "server", quick=1500, thorough=80000, shards_quick=8, shards_thorough=16, timeout_quick=400)],
+     Unit("TestC04History", "server", quick=1500, thorough=80000, shards_quick=8, shards_thorough=16, timeout_quick=400),
+     Unit("TestC04SqlMySQL", "server/db/mysql", quick=1500, thorough=40000, shards_quick=2, shards_thorough=8, tags="mysql"),
+     Unit("TestC04SqlPG", "server/db/postgres", quick=1500, thorough=40000, shards_quick=2, shards_thorough=8, tags="postgres")],
     ["ranges are sorted with RangeSorter before Normalize, as both callers do",
      "a delete request with an entry outside 1 <= low <= last id, hi = 0 or hi >= low (or with no entry) may be refused (then: no effect) or accepted (then: the same clipping rule)",
      "when the limit cuts a history answer the newest ids are kept (store contract: ORDER BY seqid DESC LIMIT n); the order of the {data} frames is not judged",
      "{get del} with since/before selects delete transactions since <= id < before; with a limit smaller than the number of listed entries only 'no id that was not deleted for the user' is judged; id 0 in a reported range is ignored (it never exists)",
      "a delete request from a session that is not attached, or from a channel reader, may be refused; only 'refused => no effect' is judged there",
-     "unsubscribing (or eviction) ends a subscription incarnation: the user's soft deletions and their log entries are gone after re-subscription (DESIGN.md 3.3)"],
+     "unsubscribing (or eviction) ends a subscription incarnation: the user's soft deletions and their log entries are gone after re-subscription (DESIGN.md 3.3)",
+     "SQL units: the statement text the fake servers receive is what a DBMS would execute (MySQL: interpolateParams=true, binary COM_STMT_EXECUTE parameters decoded by a recording proxy; PostgreSQL: prefer_simple_protocol=true); "
+     "SQL BETWEEN is inclusive at both ends; only the WHERE clause is evaluated (the dellog join of the history query is not); a deletion-log query with before=1 is read as 'no upper bound' by both adapters "
+     "(opts.Before > 1) and is not judged on its upper end, as in the world oracle"],
 )
